@@ -57,7 +57,10 @@ CLAIMED['C14'] = dict(category='proof',
         'each charged once by the real calculate_pressure_drop - also when both lie in one step, at one position, or on the lower '
         'bound of the bundle in its first step or on its upper bound in its last step. The planes are integer multiples of the '
         '1e-12 m raster and the position and step handed to the region carry a bounded floating-point drift (assumed below a '
-        'quarter raster unit); grids lie anywhere and are read on the raster. The assembly total '
+        'quarter raster unit); grids lie anywhere and are read on the raster. The step that ends on a plane belongs to the '
+        'region below it also when the region bound carries unit-conversion noise of either sign. The real '
+        'PressureDropTable.make prints the assembly total, friction and gravity summed over all regions, the bundle\'s grid '
+        'losses and one column per region, and the parts as well as the regions add up to the total. The assembly total '
         'accumulates a finished region exactly once across a region change.',
    note=_ASSUME + 'Friction factor, velocity and density are the static values held by the region (positive atoms).',
    technique='contract-based deductive verification (proxy execution, path enumeration over the grid comparisons, exact normaliser)')
@@ -66,9 +69,11 @@ CLAIMED['C15'] = dict(category='proof',
         'temperatures on every comparison path: new peak is attained and bounds the old peak and all cells, the height '
         'changes iff the old peak is strictly exceeded, region duct d of n writes entry len-n+d and nothing else, and '
         'the stored pin profile is the complete row (with this plane\'s z) of a pin attaining the new peak, owned by the peak record. '
-        'The real CoolantTempTable.make is run on a reactor whose assemblies answer with distinct atoms and its printed '
-        'cells are read back: bulk outlet = mixed-mean outlet temperature, peak outlet = maximum of the final-plane '
-        'interior field, peak and height = the running peak, in the requested units. '
+        'The real CoolantTempTable.make, DuctTempTable.make and PeakPinTempTable.make are run on a reactor whose assemblies '
+        'answer with distinct atoms and their printed cells are read back: bulk outlet = mixed-mean outlet temperature, peak '
+        'outlet = maximum of the final-plane interior field, peak and height = the running peak; one duct row per duct of '
+        'the last region with that duct\'s faces, peak and height; the pin, height and radial profile stored with the peak '
+        'of the requested location, that pin\'s linear power there, hot-spot values by assembly id; in the requested units. '
         'Bounded: the duct temperature table lists, for each duct it shows, the peak of that duct (4 generated problems).',
    note=_ASSUME + 'Small array sizes (3 cells, 2-3 pins, 1-3 ducts) - the methods use only max/argmax over the arrays; '
         'the whole-sweep claim is the induction over steps (Lean lemmas running_max_ge / running_max_attained, thorough tier). '
